@@ -106,7 +106,7 @@ pub fn observe_mode<G: ark_ec::AffineRepr + 'static>(shape: &Shape, vals: Box<dy
     let mut out = vec![];
     let mut raw = vec![];
     let pad = shape.padded();
-    let pc = PedersenGens::<G>::default();
+    let pc = crate::r1cs::pc_for::<G>(&shape.name, seed);
     let bp = BulletproofGens::<G>::new(pad, 1);
     let shr = new_shared::<G>(shape, &Default::default(), vals);
     let p_from = merlin::vlog::len();
